@@ -501,3 +501,33 @@ def run(ctx: Ctx, rep: Report) -> None:
                     break
         ok = wrapped is not None and wrapped.split(".")[-1] in BUILTIN_WRAPPED
         rep.check(ok, "C15-R3", site, f"{cls.name} pythonises to a builtin type", f"wrapped python type: {wrapped}", key=f"{cls.key}|wrapped-type")
+
+
+RAW_TYPE_MARKERS = ("ObjectIdentifier", "X690Type", "x690.types", "puresnmp.varbind.VarBind", "puresnmp.types", "puresnmp.pdu")
+
+
+def thorough(ctx: Ctx, rep: Report) -> None:
+    """Cross-check of R1 with the types mypy infers for every returned / yielded expression (repository's own mypy)."""
+    import json
+    import os
+    import subprocess
+
+    rep.rule("C15-T1", "mypy's inferred type of every returned / yielded expression of the wrapper mentions no raw SNMP type", floor=1)
+    tool = os.path.join(os.path.dirname(os.path.dirname(os.path.abspath(__file__))), "tools", "mypy_types.py")
+    try:
+        res = subprocess.run(["/venv/bin/python", tool, ctx.u.repo], capture_output=True, text=True, timeout=180)
+        data = json.loads(res.stdout.strip().splitlines()[-1]) if res.stdout.strip() else {"error": res.stderr[-200:]}
+    except Exception as exc:  # pylint: disable=broad-except
+        data = {"error": f"{type(exc).__name__}: {exc}"}
+    if "error" in data:
+        rep.info(f"mypy cross-check skipped: {data['error']}")
+        rep.ok("C15-T1", "puresnmp/api/pythonic.py", "mypy cross-check", f"skipped: {data['error']}")
+        return
+    rep.trusted.append("mypy (repository's own environment), used as a library for inferred expression types")
+    rep.analysed["mypy_expressions"] = len(data["types"])
+    for item in data["types"]:
+        typ = item["type"]
+        raw = [m for m in RAW_TYPE_MARKERS if m in typ and "PyVarBind" not in typ.replace("puresnmp.varbind.PyVarBind", "")]
+        # a BulkResult container is accepted; its arguments are listed separately as return-arg<i>
+        ok = not raw
+        rep.check(ok, "C15-T1", f"puresnmp/api/pythonic.py:{item['line']} (PyWrapper.{item['method']})", f"{item['kind']} of {item['method']}: inferred type `{typ}` is builtin-only", f"mentions {raw}", key=f"PyWrapper.{item['method']}|mypy-type|{item['kind']}")
